@@ -29,7 +29,8 @@ def fDev (ff : UnpackFilter) (m : Meta) : Meta :=
 theorem applyUnpackFilter_eq (myUid myGid : Nat) (ff : UnpackFilter) (m : Meta) :
     applyUnpackFilter myUid myGid ff m =
       (if ff.mtime = ffContext then .err .usage else
-       if ff.setid = ffReject ∧ (fSticky ff (fMtime ff (fGid myGid ff (fUid myUid ff m)))).perms &&& (permSetuid ||| permSetgid) ≠ 0
+       if ff.setid = ffReject ∧ (fSticky ff (fMtime ff (fGid myGid ff (fUid myUid ff m)))).kind ≠ .symlink ∧
+           (fSticky ff (fMtime ff (fGid myGid ff (fUid myUid ff m)))).perms &&& (permSetuid ||| permSetgid) ≠ 0
          then .err .filterRejection else
        if ff.dev = ffReject ∧ isDevKind (fSetid ff (fSticky ff (fMtime ff (fGid myGid ff (fUid myUid ff m))))).kind
          then .err .filterRejection else
